@@ -942,7 +942,8 @@ def p_C18(ctx):
 
 def p_C15(ctx):
     st = ctx.mc("MC_C15", "MC_C15_quick.cfg" if ctx.quick else "MC_C15_thorough.cfg", timeout=3000)
-    runs = [{"tag": "base"}, {"tag": "k1", "kexp": [1, 1]}, {"tag": "s3", "scale": [3, 1]}, {"tag": "s10", "scale": [1, 10]}, {"tag": "lm", "lm": True}]
+    runs = [{"tag": "base"}, {"tag": "k1", "kexp": [1, 1]}, {"tag": "s3", "scale": [3, 1]}, {"tag": "s10", "scale": [1, 10]},
+            {"tag": "no-nepb", "drop": "nepb"}, {"tag": "no-other", "drop": "other-nonelectric"}]
     def cfg(cs):
         for c in cs:
             c.update({"fac": {"mode": "loc", "loc": "PENINSULA", "red1": [500, 500, 100]}, "kexp": [0, 1], "area": [1, 1], "lm": False, "runs": runs})
@@ -955,7 +956,7 @@ def p_C15(ctx):
     ctx.assumptions = ["the specification has '= 0' where the code has its 0.01 kWh thresholds (the quantifier only has values that are 0 or >= 0.01 kWh)",
                        "the DHW fraction (an f32 ratio) is compared within 2e-4 + 2e-4 relative", TRUST,
                        "components tagged CTEEPBD_EXCLUYE_* are not recomputed (TLC strings are atomic); they are only covered by the value/error, misc-key and invariance clauses"]
-    return ctx.finish("TLC enumerates DHW supply mixes (2^7 x 3 combinations of direct electric, PV, heat pump, solar thermal, gas, district heat, biomass with/without output, densified biomass) x other services x non-EPB use x auxiliaries x demand {consistent, absent, zero}, checks range, closed forms, invariances and error classes on Acs!AcsFraction, and the mixes are replayed (one tenth in the quick tier): TLC recomputes the fraction from the logged inputs and compares value or error class, misc keys and invariance under k_exp / scaling / load matching; shipped files and random buildings add the relational clauses; non-trivial = cases with a fraction strictly between 0 and 1")
+    return ctx.finish("TLC enumerates DHW supply mixes (2^7 x 3 combinations of direct electric, PV, heat pump, solar thermal, gas, district heat, biomass with/without output, densified biomass) x other services x non-EPB use x auxiliaries x demand {consistent, absent, zero}, checks range, closed forms, invariances and error classes on Acs!AcsFraction, and the mixes are replayed (one tenth in the quick tier): TLC recomputes the fraction from the logged inputs and compares value or error class, misc keys and invariance under k_exp / scaling / removal of non-EPB use / removal of the other services' non-electric use; shipped files and random buildings add the relational clauses; non-trivial = cases with a fraction strictly between 0 and 1")
 
 
 PROPS = {
